@@ -362,6 +362,8 @@ class StmtMixin:
             h = st.heap[v.oid]
             if isinstance(h, VSeq):
                 nv = fresh(TSeq(h.etype), label)
+                if h.flat is not None and nv.flat is None:
+                    nv.flat = z3.Int(uid(label + "$flat"))
                 st.assume(nv.len >= 0)
                 return st.alloc(nv)
             return v
@@ -419,6 +421,8 @@ class StmtMixin:
             if isinstance(b, VRef) and isinstance(h.heap.get(b.oid), VSeq):
                 old = h.heap[b.oid]
                 nv = fresh(TSeq(old.etype), f"list@{tag}")
+                if old.flat is not None and nv.flat is None:
+                    nv.flat = z3.Int(uid(f"list@{tag}$flat"))
                 h.assume(nv.len >= 0)
                 h.heap[b.oid] = nv
         gmods = set(spec.get("havoc_ghost", [])) | self.ghost_written_in(node)
@@ -613,7 +617,7 @@ class StmtMixin:
             self.oblige(iso, name, kind, g, node, note=f"{goal}   [isolated from: {'; '.join(facts)}]")
             return g
         g = self.spec_bool(entry, st, env)
-        self.oblige(st, name, kind, g, node, note=entry)
+        self.oblige(st, name, kind, skolemize(g), node, note=entry)
         return g
 
     def spec_val(self, e, st, env=None):
@@ -652,6 +656,16 @@ class StmtMixin:
             env.update(kwargs)
             return [(st, eng.spec_val(body, st, env))]
         return fn
+
+
+def skolemize(g):
+    """a universally quantified goal is proved for fresh constants (keeps the solver query quantifier-free)"""
+    n = 0
+    while z3.is_quantifier(g) and g.is_forall() and n < 4:
+        vs = [z3.Const(uid(g.var_name(i)), g.var_sort(i)) for i in range(g.num_vars())]
+        g = z3.substitute_vars(g.body(), *reversed(vs))
+        n += 1
+    return g
 
 
 def lex_less(a, b):
